@@ -23,6 +23,7 @@ def run(ctx):
     n1 = E.rule_segment_source_advances(res, "C01-R1", m)
     E.rule_header_tables_agree(res, "C01-R2", m)
     E.rule_one_length(res, "C01-R3", m)
+    E.rule_header_fully_stamped(res, "C01-R3", m)
     dm = D.DecodeModel(fb)
     D.rule_accept_guard(res, "C01-R4", dm)
     D.rule_reject_reasons(res, "C01-R4", dm)
